@@ -82,7 +82,7 @@ structure DState where
       the next dump is checked by predicates only and then adopted -/
   resync : Bool := false
   /-- stores before the last build (for the loose post-build check) -/
-  preBuild : Option (Store × Nat) := none
+  preBuild : Option (Store × Nat × BuildOpts) := none
   past : List PastAnswer := []
   /-- reference runs: (pre-build store, build tokens without cancel, total polls) -/
   refs : List (Store × List String × Nat) := []
@@ -107,6 +107,9 @@ structure DState where
   nRouted : Nat := 0
   maxItems : Nat := 0
   maxDepth : Nat := 0
+  caseBuilds : Nat := 0
+  caseSplits : Nat := 0
+  caseQueries : Nat := 0
   deriving Inhabited
 
 def DState.view (d : DState) : Store := d.txn.getD d.committed
@@ -187,7 +190,8 @@ def parseQuery (rest : List String) : Option (QueryOpts × String) := do
   let k ← (kv? rest "k") >>= optNat?
   let over ← (kv? rest "over") >>= optNat?
   let cand ← kv? rest "cand"
-  let candidates ← if cand == "-" then some none else (parseIds? cand).map (fun l => some (IdSet.ofList l))
+  let candidates ← if cand == "-" then some none else if cand == "empty" then some (some []) else
+    (parseIds? cand).map (fun l => some (IdSet.ofList l))
   let by_ ← kv? rest "by"
   pure ({ count, searchK := k, oversampling := over, candidates }, by_)
 
@@ -289,36 +293,9 @@ def storePredicates (d : DState) (s : Store) : DState := Id.run do
       let ts := Check.trees c s
       for t in ts do
         let (a, b, e) := countSplits c t
-        d := { d with nSplits := d.nSplits + a, nRandomSplits := d.nRandomSplits + b, nItemChildren := d.nItemChildren + e,
+        d := { d with caseSplits := d.caseSplits + a, nSplits := d.nSplits + a, nRandomSplits := d.nRandomSplits + b, nItemChildren := d.nItemChildren + e,
                       maxDepth := Nat.max d.maxDepth (treeDepth t), nRouted := d.nRouted + t.items.length * a }
       d := { d with maxItems := Nat.max d.maxItems (s.keysOf index modeItem).length }
-  return d
-
-/-- what a build must have done whatever the oracles: items kept (headers of dot-product
-    rewritten), marks consumed, metadata describing the items, other indexes untouched -/
-def looseBuildCheck (d : DState) (c : Cfg) (o : BuildOpts) (pre : Store) (post : Store) : DState := Id.run do
-  let mut d := d
-  let pre1 := if c.metric = .dot then Build.preprocessDot c pre else pre
-  let expectOther := pre1.filter fun kv => !(kv.1.index == c.index && (kv.1.mode == modeTree || kv.1.mode == modeUpdated || kv.1.mode == modeMetadata))
-  let gotOther := post.filter fun kv => !(kv.1.index == c.index && (kv.1.mode == modeTree || kv.1.mode == modeUpdated || kv.1.mode == modeMetadata))
-  if expectOther != gotOther then
-    d := d.diff "build changed something outside the trees, marks and metadata of its index" "" ""
-  let items := pre.keysOf c.index modeItem
-  if !(post.prefixIter c.index (some modeUpdated)).isEmpty then
-    d := d.prop "C06" s!"updated marks left after a successful build of index {c.index}"
-  match post.get c.metaKey with
-  | some (.metadata name dims its roots) =>
-    if name != c.metric.nameBytes || dims != c.dims || its != items then
-      d := d.diff "metadata after build" s!"{nameToken c.metric.nameBytes} {c.dims} {items}" s!"{nameToken name} {dims} {its}"
-    let cap := Build.cap c o
-    if items.length ≤ cap then
-      if roots.length != (if items.isEmpty then 0 else 1) then
-        d := d.prop "C15" s!"index fitting one bucket has {roots.length} trees"
-    else
-      match o.nTrees with
-      | some t => if roots.length != t then d := d.prop "C15" s!"{roots.length} trees, {t} requested"
-      | none => if roots.length == 0 then d := d.prop "C15" "no tree in a non-empty index"
-  | _ => d := d.prop "C06" s!"no metadata after a successful build of index {c.index}"
   return d
 
 /-! ### dumps -/
@@ -352,6 +329,33 @@ def storeEq : Store → Store → Bool
   | (k1, v1) :: r1, (k2, v2) :: r2 => k1 == k2 && valEq v1 v2 && storeEq r1 r2
   | _, _ => false
 
+/-- what a build must have done whatever the oracles: items kept (headers of dot-product
+    rewritten), marks consumed, metadata describing the items, other indexes untouched -/
+def looseBuildCheck (d : DState) (c : Cfg) (o : BuildOpts) (pre : Store) (post : Store) : DState := Id.run do
+  let mut d := d
+  let pre1 := if c.metric = .dot then Build.preprocessDot c pre else pre
+  let expectOther := pre1.filter fun kv => !(kv.1.index == c.index && (kv.1.mode == modeTree || kv.1.mode == modeUpdated || kv.1.mode == modeMetadata))
+  let gotOther := post.filter fun kv => !(kv.1.index == c.index && (kv.1.mode == modeTree || kv.1.mode == modeUpdated || kv.1.mode == modeMetadata))
+  if !(storeEq expectOther gotOther) then
+    d := d.diff "build changed something outside the trees, marks and metadata of its index" (firstDiff expectOther gotOther) ""
+  let items := pre.keysOf c.index modeItem
+  if !(post.prefixIter c.index (some modeUpdated)).isEmpty then
+    d := d.prop "C06" s!"updated marks left after a successful build of index {c.index}"
+  match post.get c.metaKey with
+  | some (.metadata name dims its roots) =>
+    if name != c.metric.nameBytes || dims != c.dims || its != items then
+      d := d.diff "metadata after build" s!"{nameToken c.metric.nameBytes} {c.dims} {items}" s!"{nameToken name} {dims} {its}"
+    let cap := Build.cap c o
+    if items.length ≤ cap then
+      if roots.length != (if items.isEmpty then 0 else 1) then
+        d := d.prop "C15" s!"index fitting one bucket has {roots.length} trees"
+    else
+      match o.nTrees with
+      | some t => if roots.length != t then d := d.prop "C15" s!"{roots.length} trees, {t} requested"
+      | none => if roots.length == 0 then d := d.prop "C15" "no tree in a non-empty index"
+  | _ => d := d.prop "C06" s!"no metadata after a successful build of index {c.index}"
+  return d
+
 def hasNaNHeader : Val → Bool
   | .leaf h _ => h.any F32.isNaN
   | _ => false
@@ -382,11 +386,11 @@ def handleDump (d : DState) : DState := Id.run do
     d := { d with committed := impl, txn := none }
   else if d.resync then
     match d.preBuild with
-    | some (pre, index) =>
+    | some (pre, index, opts) =>
       match d.info index with
       | some info =>
         let c : Cfg := { index, metric := info.metric, dims := info.dims, host := d.host }
-        d := looseBuildCheck d c {} pre impl
+        d := looseBuildCheck d c opts pre impl
       | none => pure ()
     | none => pure ()
     d := { d.setView impl with resync := false, preBuild := none }
@@ -441,7 +445,7 @@ def handleOp (d : DState) (p : Pending) (res : List String) : DState := Id.run d
   let implStr := " ".intercalate res
   let op := p.toks.headD ""
   let some (c, rest) := parseW d p.toks.tail | return d.diff "unparsable op" "" (" ".intercalate p.toks)
-  d := noteW d c
+  d := if ["add", "append", "del", "clear", "build", "prepare"].contains op then noteW d c else d
   let s := d.view
   let cmp (d : DState) (model : String) : DState :=
     if model == implStr then d else d.diff s!"result of `{" ".intercalate (p.toks.take 6)}`" model implStr
@@ -511,7 +515,7 @@ def handleOp (d : DState) (p : Pending) (res : List String) : DState := Id.run d
         return cmp d (if l.isEmpty then "ok" else s!"ok {iterStr l}")
       | _ => return cmp d s!"ok {idsStr rd.items}"
   | "nns" =>
-    d := { d with nQueries := d.nQueries + 1 }
+    d := { d with nQueries := d.nQueries + 1, caseQueries := d.caseQueries + 1 }
     let some (q, by_) := parseQuery rest | return d.diff "bad query" "" ""
     match readerOf c s with
     | .error e => return cmp d (errStr e)
@@ -587,7 +591,7 @@ def handleOp (d : DState) (p : Pending) (res : List String) : DState := Id.run d
       d := { d with nBuildsLoose := d.nBuildsLoose + 1 }
       if implOk then
         d := d.setInfo c.index { info with capHist := capHist }
-        return { d with resync := true, preBuild := some (s, c.index) }
+        return { d with resync := true, preBuild := some (s, c.index, args.opts), caseBuilds := d.caseBuilds + 1 }
       else
         -- a failed build: whatever it left is discarded by the abort the protocol requires
         return { d with resync := true, preBuild := none, nCancelled := d.nCancelled + 1 }
@@ -597,7 +601,7 @@ def handleOp (d : DState) (p : Pending) (res : List String) : DState := Id.run d
     let refKey := p.toks.filter fun t => !(t.startsWith "cancel=")
     match Build.build c args.opts 100000 st0 with
     | .ok ((), st) =>
-      d := { d with nBuildsReplayed := d.nBuildsReplayed + 1 }
+      d := { d with nBuildsReplayed := d.nBuildsReplayed + 1, caseBuilds := d.caseBuilds + 1 }
       d := cmp d s!"ok polls={st.polls}"
       if !(st.normals.isEmpty && st.rands.isEmpty && st.batches.isEmpty) then
         d := d.diff "events left over after the model build" s!"{st.normals.length} normals {st.rands.length} random bits {st.batches.length} batches" ""
@@ -652,14 +656,15 @@ def step (d : DState) (line : String) : DState :=
   | ["enddump"] => handleDump d
   | "case" :: n :: _ =>
     { d with caseId := (parseNat? n).getD 0, step := 0, committed := [], txn := none, infos := [], pending := none,
-             resync := false, preBuild := none, past := [], refs := [], caseFailures := 0, expectRecovered := false }
+             resync := false, preBuild := none, past := [], refs := [], caseFailures := 0, expectRecovered := false,
+             caseBuilds := 0, caseSplits := 0, caseQueries := 0 }
   | "host" :: rest =>
     let flag (k : String) := (kv? rest k) == some "1"
     { d with host := { avx := flag "avx", fma := flag "fma", sse := flag "sse" } }
   | ["begin"] => { d with txn := some d.committed, step := d.step + 1 }
   | ["commit"] => { d with committed := d.view, txn := none, step := d.step + 1 }
   | ["abort"] => { d with txn := none, step := d.step + 1, resync := false, preBuild := none, past := [] }
-  | ["endcase"] => if d.caseFailures == 0 then d.emit s!"CASE {d.caseId} ok steps={d.step}" else d.emit s!"CASE {d.caseId} FAILED failures={d.caseFailures}"
+  | ["endcase"] => if d.caseFailures == 0 then d.emit s!"CASE {d.caseId} ok steps={d.step} builds={d.caseBuilds} splits={d.caseSplits} queries={d.caseQueries}" else d.emit s!"CASE {d.caseId} FAILED failures={d.caseFailures}"
   | "note" :: _ => d
   | ["expect-recovered"] => { d with expectRecovered := true }
   | "ev" :: _ =>
